@@ -26,25 +26,30 @@ Section Generic.
   Lemma inner_gen : forall fuel q buf prog T T',
     (forall it, In it (q ++ buf) -> Sok it) ->
     inner C reg fuel q buf prog T = Ok T' ->
-    Rel T T' /\ forall it, In it (q ++ buf) -> Post it T'.
+    Rel T T' /\ (schanged T' = false -> forall it, In it (q ++ buf) -> Post it T').
   Proof.
     induction fuel as [|f IH]; intros q buf prog T T' HS H; simpl in H; [discriminate|].
     destruct q as [|[ph s] q'].
     - destruct buf as [|b buf'].
-      + inversion H; subst. split; [apply Rrefl | intros it []].
-      + destruct prog; [|discriminate].
-        apply IH in H.
-        * rewrite app_nil_r in H. exact H.
-        * rewrite app_nil_r. exact HS.
+      + inversion H; subst. split; [apply Rrefl | intros _ it []].
+      + destruct prog.
+        * apply IH in H.
+          -- rewrite app_nil_r in H. exact H.
+          -- rewrite app_nil_r. exact HS.
+        * (* no progress: the pass is abandoned with the change flag set (statements are left over,
+             nothing is claimed about them), or the run fails *)
+          destruct (finder_restarts C && schanged T) eqn:Er; [|discriminate].
+          inversion H; subst T'. apply andb_prop in Er. destruct Er as [_ Ech].
+          split; [apply Rrefl | intros Hc; congruence].
     - pose proof (Rproc T ph s (HS (ph, s) (or_introl eq_refl))) as HP.
       destruct (proc_stmt C reg T ph s) as [T1 p | T1 | e]; [| |discriminate].
       + destruct HP as [HR HPost]. apply IH in H.
         * destruct H as [HR' HP']. split; [eapply Rtrans; eauto|].
-          intros it [E|Hin]; [subst; eapply Pmono; eauto | auto].
+          intros Hc it [E|Hin]; [subst; eapply Pmono; eauto | auto].
         * intros it Hin. apply HS. right. exact Hin.
       + apply IH in H.
         * destruct H as [HR' HP']. split; [eapply Rtrans; eauto|].
-          intros it Hin. apply HP'. apply in_or_app. simpl in Hin.
+          intros Hc it Hin. apply (HP' Hc). apply in_or_app. simpl in Hin.
           destruct Hin as [E|Hin]; [right; left; exact E|].
           apply in_app_or in Hin. destruct Hin; [left | right; right]; assumption.
         * intros it Hin. apply HS. simpl. apply in_app_or in Hin. destruct Hin as [Hin|[E|Hin]].
@@ -67,7 +72,7 @@ Section Generic.
       + apply IH in H; [|exact HS]. destruct H as [HR' [HP' Hc]]. split; [|split; assumption].
         eapply Rtrans; [apply Rreset|]. eapply Rtrans; eauto.
       + inversion H; subst. split; [eapply Rtrans; [apply Rreset | exact HR]|]. split; [|exact Ech].
-        intros it Hin. apply HP. rewrite app_nil_r. apply in_rev in Hin. exact Hin.
+        intros it Hin. apply (HP eq_refl). rewrite app_nil_r. apply in_rev in Hin. exact Hin.
     - intros it Hin. rewrite app_nil_r in Hin. apply in_rev in Hin. apply HS. exact Hin.
   Qed.
 End Generic.
@@ -153,13 +158,33 @@ Proof.
   inversion H; subst. reflexivity.
 Qed.
 
-Lemma kcall_inv : forall reg f rs kwn ks,
-  kcall reg f rs kwn = Ok ks -> exists s0, rlookup reg f = Some s0 /\ List.length ks = sig_nres s0.
+(* whatever inference gets out of a function (either shape of the matrix built-ins) is what the
+   check=False rules of [result_kinds] give *)
+Lemma result_kinds_infer_some : forall na s a ks,
+  result_kinds_infer na s a = Some ks -> result_kinds false s a = Some ks.
 Proof.
-  intros reg f rs kwn ks H. unfold kcall in H. destruct (rlookup reg f) as [s0|]; [|discriminate].
+  intros na s a ks H. unfold result_kinds_infer in H.
+  destruct (na && negb (matrix_arrays s a)); [discriminate | exact H].
+Qed.
+
+Lemma call_kinds_infer_some : forall na s aks kwn ks,
+  call_kinds_infer na s aks kwn = Some ks -> call_kinds false s aks kwn = Some ks.
+Proof.
+  intros na s aks kwn ks H. unfold call_kinds_infer, call_kinds, call_kinds_gen in *.
+  destruct s; try exact H;
+    destruct (split_args aks kwn) as [pos kw];
+    match type of H with context [resolve ?n ?p ?k] => destruct (resolve n p k); [|discriminate] end;
+    eapply result_kinds_infer_some; eassumption.
+Qed.
+
+Lemma kcall_inv : forall C reg f rs kwn ks,
+  kcall C reg f rs kwn = Ok ks -> exists s0, rlookup reg f = Some s0 /\ List.length ks = sig_nres s0.
+Proof.
+  intros C reg f rs kwn ks H. unfold kcall in H. destruct (rlookup reg f) as [s0|]; [|discriminate].
   destruct (arg_kinds rs) as [aks|]; [|discriminate].
-  destruct (call_kinds false s0 aks kwn) as [ks'|] eqn:E; [|discriminate].
-  inversion H; subst. exists s0. split; [reflexivity|]. eapply call_kinds_len; eauto.
+  destruct (call_kinds_infer (need_arrays C) s0 aks kwn) as [ks'|] eqn:E; [|discriminate].
+  inversion H; subst. exists s0. split; [reflexivity|].
+  eapply call_kinds_len. eapply call_kinds_infer_some. eauto.
 Qed.
 
 Lemma set_many_keys : forall C ph xs ks T x,
@@ -192,12 +217,12 @@ Proof.
       * match goal with |- context [raised C ?t] => destruct (raised C t); [exact I|] end.
         split; [eapply relA_trans; [exact HL | apply relA_tset]|]. unfold postA. simpl. apply tset_key.
       * destruct e; auto.
-  - destruct (kcall reg f (map (kmap C reg (sg T) (local_of T ph)) args) kwn) as [ks|e] eqn:E.
+  - destruct (kcall C reg f (map (kmap C reg (sg T) (local_of T ph)) args) kwn) as [ks|e] eqn:E.
     + match goal with |- context [raised C ?t] => destruct (raised C t); [exact I|] end.
       split.
       * apply (set_many_rel C (relA C) (relA_refl C) (relA_trans C)
                             (fun T ph x k => relA_tset C T ph x (Some k))).
-      * unfold postA. simpl. destruct (kcall_inv _ _ _ _ _ E) as [s0 [Hf Hlen]]. exists s0.
+      * unfold postA. simpl. destruct (kcall_inv _ _ _ _ _ _ E) as [s0 [Hf Hlen]]. exists s0.
         split; [exact Hf|]. intros x Hx. apply set_many_keys. rewrite Hlen. exact Hx.
     + destruct e; auto. apply relA_refl.
   - split; [apply relA_refl | exact I].
@@ -250,13 +275,13 @@ Proof.
     revert E Hs. generalize (local_of T ph) as L. induction stmts as [|s stmts IHs]; intros L E Hs; simpl in *.
     + contradiction.
     + destruct Hs as [->|Hs].
-      * destruct (kcall reg f (map (kmap C reg (sg T) L) args) kwn); [|discriminate].
+      * destruct (kcall C reg f (map (kmap C reg (sg T) L) args) kwn); [|discriminate].
         destruct (rlookup reg f) as [s0|]; [|discriminate]. exists s0. split; [reflexivity|].
         destruct (Nat.eqb (sig_nres s0) (List.length xs)) eqn:En; [|discriminate].
         apply Nat.eqb_eq. exact En.
       * destruct s as [x hs rhs loops | xs' f' args' kwn' |].
         -- destruct (kmap C reg (sg T) L rhs); [|discriminate]. eapply IHs; eauto.
-        -- destruct (kcall reg f' (map (kmap C reg (sg T) L) args') kwn'); [|discriminate].
+        -- destruct (kcall C reg f' (map (kmap C reg (sg T) L) args') kwn'); [|discriminate].
            destruct (rlookup reg f') as [s1|]; [|discriminate].
            destruct (Nat.eqb (sig_nres s1) (List.length xs')); [|discriminate]. eapply IHs; eauto.
         -- eapply IHs; eauto.
